@@ -3232,11 +3232,17 @@ func (db *DB) checksum(pageN uint32, newWALChecksums map[uint32]ltx.Checksum) (l
 	// Ignore blocks which have pages in the WAL.
 	blockN := pageChksumBlock(pageN) + 1
 	ignoredBlocks := make([]bool, blockN)
+	// Pages past the new end of the database (e.g. truncated by this commit)
+	// can belong to blocks beyond blockN; they do not contribute to the checksum.
 	for pgno := range db.wal.chksums {
-		ignoredBlocks[pageChksumBlock(pgno)] = true
+		if block := pageChksumBlock(pgno); block < blockN {
+			ignoredBlocks[block] = true
+		}
 	}
 	for pgno := range newWALChecksums {
-		ignoredBlocks[pageChksumBlock(pgno)] = true
+		if block := pageChksumBlock(pgno); block < blockN {
+			ignoredBlocks[block] = true
+		}
 	}
 
 	var chksum ltx.Checksum
